@@ -113,6 +113,8 @@ type unprintablePanic struct{}
 func (unprintablePanic) String() string { panic("inner-boom") }
 
 // universe returns fresh fmt-compatible operands (some hold pointers, so build per call).
+type namedF32 float32
+
 func universe(r *rand.Rand) []interface{} {
 	strs := []string{"", "a", "hello world", "é世😀", "with ‹marker› inside", "›‹", "line1\nline2", "\n", "tab\tq\"uote", "×", "a ‹×› b"}
 	s := strs[r.Intn(len(strs))]
@@ -155,6 +157,16 @@ func universeOf(s string, n int, ps string, pn int) []interface{} {
 		}{panicStringer{s}, n, s},
 		[]interface{}{panicStringer{"p"}, s, uint8(n), n}, []interface{}{panicErr{s}, echoFormatter{"after"}},
 		map[string]interface{}{"a": panicStringer{"m"}, "b": s, "c": uint(7)}, namedArr{1, 2, 'c'}, [2]namedByte{3, 'z'},
+		// narrow kinds reached by reflection (elements, fields, map values, named types, reflect.Value): values that are
+		// not short decimals in binary print differently at 32 and at 64 bits
+		[]float32{0.1, float32(n) / 3}, [2]float32{0.7, 1e-7}, map[string]float32{"k": 0.3}, namedF32(0.1), reflect.ValueOf(float32(0.1)),
+		struct {
+			F float32
+			C complex64
+			I int8
+			U uint16
+		}{0.1, complex(float32(0.1), 0.7), int8(-n), uint16(n)}, []complex64{complex(0.1, 0.2)}, []int8{-3, int8(n)}, []uint16{9, uint16(n)},
+		[]interface{}{float32(0.1), complex64(complex(0.3, 0.1))},
 		// integers beyond 32 bits (whose low bits look like a rune), extreme map keys (key order by comparison, not subtraction)
 		int64(1)<<32 | 'A', uint64(7)<<40 | 0x2318, int64(math.MinInt64), uint64(math.MaxUint64), int64(0x10FFFF + 1), int64(0xD800),
 		map[int64]string{math.MinInt64: "lo", 1: "one", math.MaxInt64: "hi", -3: s}, map[int]bool{-5: true, 7: false, math.MinInt64: true},
